@@ -34,9 +34,9 @@ type ReusableWorkflowMetadataInput struct {
 // UnmarshalYAML implements yaml.Unmarshaler.
 func (input *ReusableWorkflowMetadataInput) UnmarshalYAML(n *yaml.Node) error {
 	type metadata struct {
-		Required bool    `yaml:"required"`
-		Default  *string `yaml:"default"`
-		Type     string  `yaml:"type"`
+		Required bool      `yaml:"required"`
+		Default  yaml.Node `yaml:"default"`
+		Type     string    `yaml:"type"`
 	}
 
 	var md metadata
@@ -44,7 +44,10 @@ func (input *ReusableWorkflowMetadataInput) UnmarshalYAML(n *yaml.Node) error {
 		return err
 	}
 
-	input.Required = md.Required && md.Default == nil
+	// An input has a default value when the "default" key exists, whatever its value is. This must be
+	// consistent with the metadata built from a workflow AST in WriteWorkflowCallEvent. Otherwise
+	// errors at workflow calls depend on which of them registered the metadata first.
+	input.Required = md.Required && md.Default.IsZero()
 	switch md.Type {
 	case "boolean":
 		input.Type = BoolType{}
